@@ -82,9 +82,36 @@ CLAIMED.update({
             "harness/flatten.py for the script digest, TLC.", "DESIGN.md 5 (C05)", "editapi"),
 })
 
+CLAIMED.update({
+    "C11": ("model_checking",
+            "TLA+ contract StringScript.tla (LCS by the textbook recurrence, evaluated by TLC); TLC enumerates all string "
+            "pairs over small alphabets (StringScriptGen); character scripts of the real code validated by TLC",
+            "StringScript.tla: every character of both strings consumed exactly once and in order, kept characters "
+            "equal, and at the end kept = LCS(a,b) and removed+inserted = |a|+|b|-2 LCS, LCS computed by TLC itself. "
+            "TLC checks on the contract that no clause-respecting script keeps more than LCS characters. Exhaustive "
+            "over {a,b} up to length 6 and {a,b,c} up to length 3 (thorough: 7 and 4) through both entry points "
+            "(StringNode.edits, string_edit_distance), random pairs up to length 30/48 beyond.",
+            "Trusted: props/c11.py (sub-edit -> character index by node identity), TLC.", "DESIGN.md 5 (C11)", "strings"),
+    "C17": ("model_checking",
+            "TLA+ contract Selection.tla + L2 model Search.tla model-checked by TLC (correctness and termination over all "
+            "schedules); TLC enumerates all tightening schedules (SelectionGen), real algorithms run on scripted items, "
+            "outcomes validated by TLC (SelectionTrace)",
+            "Selection.tla defines the environment (items following chains of nested intervals = all sound tightening "
+            "schedules) and the post-conditions of search, sort, min_bounded and make_distinct incl. termination. TLC "
+            "enumerates every schedule for small (items, value range) and the real code is run on each (search with and "
+            "without initial bounds); Search.tla is an implementation-shaped model of the search checked by TLC for "
+            "Correct and Terminates under fairness.",
+            "Trusted: scripted honest items in props/c17.py, TLC. Search.tla omits pruning shortcuts (drift-only).",
+            "DESIGN.md 4.6, 5 (C17)", "selection"),
+})
+
 NOT_YET = "check not built yet in this round (planned: see DESIGN.md section 5)"
 
 ENGINES = [
+    {"name": "strings", "path": "spec/StringScript.tla spec/StringScriptGen.tla spec/StringScriptTrace.tla props/c11.py",
+     "serves_properties": ["C11"], "kind_free_text": "TLA+ character-script contract with LCS oracle evaluated by TLC"},
+    {"name": "selection", "path": "spec/Selection.tla spec/SelectionGen.tla spec/SelectionTrace.tla spec/Search.tla props/c17.py",
+     "serves_properties": ["C17"], "kind_free_text": "TLC-enumerated tightening schedules replayed on the real search/sort/min/make_distinct"},
     {"name": "bounded", "path": "spec/Bounded.tla spec/BoundedTrace.tla harness/monitor.py props/c04.py",
      "serves_properties": ["C04"],
      "kind_free_text": "TLA+ refinement-protocol contract + external monitor + TLC trace validation"},
